@@ -234,4 +234,14 @@ PROPS = {
                     "when reduce_to_one_representative_error is off, completeness of the location list beyond 'at least one' is not checked (the property does not ask for it)"],
         "assumptions": ["circuits whose detectors are deterministic (the circuit's model exists without allow_gauge_detectors)"],
     },
+    "C14": {
+        "lean_modules": ["StimModel.Props.C14"],
+        "areas": [
+            {"area": "flow", "n": {"quick": 400, "thorough": 8000}, "replayable": True},
+        ],
+        "rule": "TODO",
+        "trusted_base": [],
+        "partial": [],
+        "assumptions": [],
+    },
 }
